@@ -526,6 +526,7 @@ def main(tier):
     import probepure
     rep.attempt(probepure.check_probe_pure, rep, mod)
     rep.attempt(probepure.check_trunc_cmp, rep, mod)
+    rep.attempt(probepure.check_zero_run_siblings, rep, mod)
     import c19 as _c19
     rep.attempt(probepure.check_avail_unsigned, rep, mod, _c19.field_offsets('struct isal_zstream', ['avail_in', 'avail_out']), _c19.field_offsets('struct inflate_state', ['avail_in', 'avail_out']))
     import c02
